@@ -258,6 +258,55 @@ pub fn run(ctx: &Ctx) -> i32 {
             }
         }
     });
+    // long contents: line ends and append boundaries around multiples of the reader's buffer size
+    {
+        let mut nlong = 0u64;
+        for line_len in [7usize, 8, 9, 64, 4096] {
+            let mut content: Vec<u8> = Vec::new();
+            let mut i = 0usize;
+            while content.len() < 3 * 8192 + 100 {
+                let body: String = format!("{:0width$}", i, width = line_len - 1);
+                content.extend_from_slice(body.as_bytes());
+                content.push(b'\n');
+                i += 1;
+            }
+            content.extend_from_slice(b"tail-without-newline");
+            let marks = [4095usize, 4096, 8191, 8192, 8193, 16384, 20000];
+            for subset in 0u32..(1 << marks.len()) {
+                if subset.count_ones() > 3 {
+                    continue;
+                }
+                let mut cuts: Vec<usize> = marks.iter().enumerate().filter(|(k, _)| subset & (1 << k) != 0).map(|(_, m)| *m).collect();
+                cuts.push(content.len());
+                let mut lens = Vec::new();
+                let mut prev = 0;
+                for c in cuts {
+                    lens.push(c - prev);
+                    prev = c;
+                }
+                for cap in [4096usize, 8192] {
+                    let (fs, obs) = judge(&content, &lens, cap, (subset % 2) as usize, None);
+                    nlong += 1;
+                    col.eval(1);
+                    col.traces_validated.fetch_add(1, std::sync::atomic::Ordering::Relaxed);
+                    if let Some(o) = &obs {
+                        col.transitions.fetch_add(o.polls as u64, std::sync::atomic::Ordering::Relaxed);
+                        col.states.fetch_add(o.states, std::sync::atomic::Ordering::Relaxed);
+                        if o.polls_inside_line > 0 {
+                            col.nontrivial(h64(&("long", line_len, subset, cap)));
+                        }
+                    }
+                    for mut f in fs {
+                        f.case = json!({"layer": "long", "line_len": line_len, "chunks": lens, "capacity": cap, "pre": subset % 2});
+                        f.signature = format!("{}:long-content", f.signature);
+                        f.what = f.what.chars().take(300).collect();
+                        col.fail(f);
+                    }
+                }
+            }
+        }
+        col.layer("long contents around buffer-size multiples", nlong, true, json!({"content_bytes": 24696, "line_lengths": [7, 8, 9, 64, 4096], "append boundaries": [4095, 4096, 8191, 8192, 8193, 16384, 20000], "capacities": [4096, 8192]}));
+    }
     executor_layer(ctx, &col);
     col.layer("iterator schedules", done, complete, json!({"contents": contents.len(), "max_chars": maxchars, "max_bytes": maxbytes, "cut_items": total, "capacities": CAPS}));
     finish(
@@ -445,6 +494,19 @@ fn executor_layer(ctx: &Ctx, col: &Collector) {
 }
 
 pub fn replay(case: &J) -> Vec<Failure> {
+    if case["layer"].as_str() == Some("long") {
+        let line_len = case["line_len"].as_u64().unwrap() as usize;
+        let mut content: Vec<u8> = Vec::new();
+        let mut i = 0usize;
+        while content.len() < 3 * 8192 + 100 {
+            content.extend_from_slice(format!("{:0width$}", i, width = line_len - 1).as_bytes());
+            content.push(b'\n');
+            i += 1;
+        }
+        content.extend_from_slice(b"tail-without-newline");
+        let chunks: Vec<usize> = case["chunks"].as_array().unwrap().iter().map(|x| x.as_u64().unwrap() as usize).collect();
+        return judge(&content, &chunks, case["capacity"].as_u64().unwrap() as usize, case["pre"].as_u64().unwrap_or(0) as usize, None).0;
+    }
     if case["layer"].as_str() == Some("executor") {
         let chunks: Vec<usize> = case["chunks"].as_array().unwrap().iter().map(|x| x.as_u64().unwrap() as usize).collect();
         return executor_case(case["head"].as_bool().unwrap(), &unhex(case["prefix_hex"].as_str().unwrap()), &unhex(case["content_hex"].as_str().unwrap()), &chunks);
